@@ -262,6 +262,6 @@ Plan threads_warmup_plan() {
     return plan;
 }
 
-static struct Reg { Reg() { register_family(Family{"threads", gen, setup, finalize, nullptr, nullptr}); } } reg;
+static struct Reg_threads { Reg_threads() { register_family(Family{"threads", gen, setup, finalize, nullptr, nullptr}); } } reg;
 
 }  // namespace xs
